@@ -123,7 +123,7 @@ class Sess:
         if r.name == "EXISTS":
             st["replayed_exists"] += 1
             if n < len(self.view):
-                w.viol(["C01"], "exists-shrinks", f"{self.name}: EXISTS {n} < view length {len(self.view)}")
+                w.viol(w.view_props(self), "exists-shrinks", f"{self.name}: EXISTS {n} < view length {len(self.view)}")
                 return
             if n > len(self.view):
                 st["view_grew"] += 1
@@ -133,13 +133,13 @@ class Sess:
             if self.in_nonuid_fss:
                 w.viol(["C01"], "expunge-during-nonuid-fetch-store-search", f"{self.name}: * {n} EXPUNGE while {self.in_nonuid_fss} in progress")
             if not (1 <= n <= len(self.view)):
-                w.viol(["C01"], "expunge-outside-view", f"{self.name}: EXPUNGE {n} with view length {len(self.view)}")
+                w.viol(w.view_props(self), "expunge-outside-view", f"{self.name}: EXPUNGE {n} with view length {len(self.view)}")
                 return
             del self.view[n - 1]
         elif r.name == "FETCH":
             st["replayed_fetch"] += 1
             if not (1 <= n <= len(self.view)):
-                w.viol(["C01"], "fetch-outside-view", f"{self.name}: FETCH {n} with view length {len(self.view)}: {r.raw[:80]!r}")
+                w.viol(w.view_props(self), "fetch-outside-view", f"{self.name}: FETCH {n} with view length {len(self.view)}: {r.raw[:80]!r}")
                 return
             d = dict(r.data)
             cell = self.view[n - 1]
@@ -208,6 +208,17 @@ class World:
         raise Stop()
 
     foreign_violations = ()
+
+    def view_props(self, ss):
+        """Which properties a view anomaly of session `ss` is a witness of: C01
+        always; C13 as well while a delivery to the selected mailbox is still
+        being announced (messages filed by the agent that the model has not
+        seen with a UID yet) -- then "announced as new messages at the end of
+        the mailbox" is what failed."""
+        b = self.boxes.get(ss.selected) if getattr(ss, "selected", None) else None
+        if b is not None and any(getattr(m, "ext", False) and m.uid is None for m in b.msgs):
+            return ["C01", "C13"]
+        return ["C01"]
 
     def note(self, text):
         self.steps.append(text)
